@@ -97,6 +97,35 @@ def expiry_oracle(ctx, stream, inp, res, ops):
                             "connection lifetime elapsed but the next exchange reused the connection")
 
 
+def token_oracle(ctx, stream, inp, res, ops):
+    """every handshake request carries the configured token: the one given to the explicit authenticate that
+    writes it, or - for a handshake written by a send - the one of the last authenticate that SUCCEEDED"""
+    times = res["times"]
+    outcomes = res["outcomes"]
+    hs = [e for e in res["dev"].log if e["kind"] == "hs"]
+    for e in hs:
+        t = sessim.ms(e["t"])
+        i = next((k for k in range(len(times)) if t <= times[k] and (k == 0 or t >= times[k - 1])), None)
+        # a write at exactly an op boundary belongs to the op that starts there
+        cands = [k for k in range(len(times)) if (times[k - 1] if k else 0) <= t <= times[k]]
+        want = set()
+        for k in cands:
+            op = ops[k]
+            if op[0] in ("auth", "authc"):
+                want.add(bytes(op[1]))
+            elif op[0] in ("send", "sendc"):
+                stored = None
+                for j in range(k):
+                    if ops[j][0] in ("auth", "authc") and outcomes[j] == "done":
+                        stored = bytes(ops[j][1])
+                if stored is not None:
+                    want.add(stored)
+        if want and bytes(e["token"]) not in want:
+            ctx.violate(stream, {**inp, "at_ms": t}, {"token": hx(e["token"][:6])}, {"one of": sorted(hx(w[:6]) for w in want)},
+                        "a handshake request does not carry the configured token")
+            return
+
+
 def run_one(ctx, stream, rng, names, with_life):
     token, key = rb(rng, 64), rb(rng, 32)
     bad_token, bad_key = rb(rng, 64), rb(rng, 32)
@@ -123,6 +152,7 @@ def run_one(ctx, stream, rng, names, with_life):
     inp["history"] = names
     device_oracle(ctx, stream, inp, res)
     expiry_oracle(ctx, stream, inp, res, ops)
+    token_oracle(ctx, stream, inp, res, ops)
     for o in res["outcomes"]:
         ctx.count(f"{stream}:{o.split(':')[0] if o.startswith('frames') else o}")
     ctx.case(stream, key=(tuple(names), with_life, hx(token[:4])), sample={"history": names, "lifetime": with_life,
